@@ -219,6 +219,13 @@ func (p *process) SpawnMeta(behavior gen.MetaBehavior, options gen.MetaOptions) 
 	// register to be able routing messages to this meta process
 	p.metas.Store(m.id, m)
 	p.node.aliases.Store(m.id, p)
+	if p.isAlive() == false {
+		// the parent terminated while the meta process was being initialized: its
+		// unregisterProcess did not see this meta process and nobody would ever stop it
+		p.node.aliases.Delete(m.id)
+		p.metas.Delete(m.id)
+		return alias, gen.ErrProcessTerminated
+	}
 	go m.start()
 
 	return m.id, nil
